@@ -32,22 +32,33 @@ def run(ctx):
     leaves = {}
     RM.collect_leaves(om4.attr("base_score"), leaves)
     nlev = 0
+    from ..objmodel import MISMATCH
+
     for k, ordr in sorted(spec4["severity_order"].items()):
         if k == "E":
             continue
         slot = om4.v4["eff"].get(k)
+        effv = om4.spec_leaf(om4.st, k, lambda e: e, spec4)
         for f in leaves.values():
-            if f.slots == (slot,):
+            if f.slots == (slot,) and effv is not None:
                 nlev += 1
-                rev = list(reversed(ordr))  # level 0 = most severe: levels increase as severity decreases
-                ok, cex = RM.leaf_monotone(f, slot, rev, om4.st)
-                strict = len(set(f.table.values())) == len(f.table)
+                rank = dict((val, i) for i, val in enumerate(ordr))  # larger = more severe
+                bad = None
+                rows = [(effv.table.get(c), f.table[c]) for c in f.table]
+                for e1, l1 in rows:
+                    for e2, l2 in rows:
+                        if e1 is MISMATCH or e2 is MISMATCH or e1 not in rank or e2 not in rank:
+                            continue
+                        if rank[e1] > rank[e2] and not (l1 < l2):
+                            bad = (e1, float(l1), e2, float(l2))
+                        if rank[e1] == rank[e2] and l1 != l2:
+                            bad = (e1, float(l1), e2, float(l2))
                 led.check(
-                    ok and strict,
+                    bad is None,
                     "C14.levels",
                     "CVSS4 severity level of %s" % k,
                     "cvss/cvss4.py",
-                    "severity levels of %s are not strictly ordered with severity (%s)" % (k, cex),
+                    "severity levels of %s are not strictly ordered with severity (%s)" % (k, bad),
                 )
     led.require_min("C14.levels", nlev, 14, "v4 level tables")
     R4.check_tail(ctx, led, om4)
